@@ -345,6 +345,13 @@ fn plutus_witness(w: &World, p: usize, variant: u8, tag: RedeemerTag, marker: u6
     } else if variant == 1 {
         let src = PlutusScriptSource::new_ref_input(&w.plutus[p].hash(), &op_outpoint(REF_SCRIPT_OUTPOINT), &plutus_lang(w, p), REF_SCRIPT_SIZE);
         PlutusWitness::new_with_ref_without_datum(&src, &red)
+    } else if variant == 4 {
+        // script by reference, datum by value (in the witness set)
+        let src = PlutusScriptSource::new_ref_input(&w.plutus[p].hash(), &op_outpoint(REF_SCRIPT_OUTPOINT), &plutus_lang(w, p), REF_SCRIPT_SIZE);
+        match datum {
+            Some(d) => PlutusWitness::new_with_ref(&src, &DatumSource::new(&w.datums[d]), &red),
+            None => PlutusWitness::new_with_ref_without_datum(&src, &red),
+        }
     } else {
         // variants 2 and 3: the datum sits in a reference input (no datum witness);
         // 2 = script in the witness set, 3 = script by reference as well
@@ -1096,13 +1103,13 @@ pub fn ops_for(prop: &str) -> Vec<Op> {
             Op::Mint(0), Op::Mint(2), Op::ReqSigner(3), Op::RefIn(0), Op::RefIn(1), Op::RefIn(2), Op::ExtraDatum(0), Op::ExtraDatum(1), Op::ExtraDatum(3),
         ],
         "C18" => vec![
-            Op::In(0, 0), Op::In(2, 0), Op::In(1, 0), Op::In(5, 0), Op::In(13, 0), Op::In(12, 0), Op::In(6, 0), Op::In(6, 1), Op::In(10, 0), Op::In(10, 2), Op::In(16, 3), Op::In(16, 1), Op::In(7, 0), Op::In(7, 1), Op::In(11, 0), Op::In(8, 0), Op::In(8, 2), Op::In(14, 0), Op::In(17, 0), Op::In(17, 1),
+            Op::In(0, 0), Op::In(2, 0), Op::In(1, 0), Op::In(5, 0), Op::In(13, 0), Op::In(12, 0), Op::In(6, 0), Op::In(6, 1), Op::In(10, 0), Op::In(10, 2), Op::In(16, 3), Op::In(16, 1), Op::In(7, 0), Op::In(7, 1), Op::In(7, 4), Op::In(11, 0), Op::In(8, 0), Op::In(8, 2), Op::In(14, 0), Op::In(14, 4), Op::In(17, 0), Op::In(17, 1),
             Op::Out(0), Op::Coll(1), Op::Coll(0), Op::Cert(5), Op::Cert(7), Op::Cert(8), Op::Cert(6), Op::Cert(13), Op::Cert(25), Op::Cert(27),
             Op::Wd(0), Op::Wd(1), Op::Wd(3), Op::Vote(0), Op::Vote(1), Op::Vote(2), Op::Vote(3), Op::Vote(4),
             Op::Mint(0), Op::Mint(2), Op::ReqSigner(3), Op::ReqSigner(0), Op::RefIn(0), Op::RefIn(1), Op::RefIn(2), Op::ExtraDatum(0), Op::ExtraDatum(1), Op::ExtraDatum(3), Op::Meta,
         ],
         "C09" | "C10" => vec![
-            Op::In(0, 0), Op::In(7, 0), Op::In(7, 1), Op::In(8, 0), Op::In(11, 0), Op::In(6, 0), Op::In(2, 0), Op::In(14, 0), Op::In(14, 2), Op::In(15, 0), Op::In(15, 1), Op::In(8, 3),
+            Op::In(0, 0), Op::In(7, 0), Op::In(7, 1), Op::In(8, 0), Op::In(11, 0), Op::In(6, 0), Op::In(2, 0), Op::In(14, 0), Op::In(14, 2), Op::In(14, 4), Op::In(15, 0), Op::In(15, 1), Op::In(8, 3),
             Op::Mint(0), Op::Mint(5), Op::Mint(2), Op::Mint(4), Op::Cert(25), Op::Cert(5), Op::Cert(26), Op::Cert(16), Op::Cert(27), Op::Wd(0), Op::Wd(1), Op::Wd(3), Op::Wd(5), Op::Vote(1), Op::Vote(3), Op::Vote(4), Op::Vote(5), Op::Vote(6),
             Op::Proposal(0), Op::Proposal(3), Op::Proposal(4), Op::MetaEmpty(0), Op::MetaEmpty(1),
             Op::ExtraDatum(0), Op::ExtraDatum(1), Op::ExtraDatum(3), Op::Meta, Op::Out(0),
@@ -1121,6 +1128,11 @@ pub fn core_ops_for(prop: &str) -> Vec<Op> {
             Op::Cert(0), Op::Cert(3), Op::Cert(7), Op::Cert(13), Op::Cert(20),
             Op::Wd(0), Op::Wd(2), Op::WdAgain(0), Op::Wd(4), Op::Mint(0), Op::Mint(1), Op::Mint(3), Op::Proposal(0), Op::Donate,
             Op::Fee(0), Op::Fee(2), Op::Coll(1), Op::RefIn(3), Op::MintAndOutput, Op::ExtraDatum(1), Op::ExtraDatum(4), Op::In(18, 0), Op::Mint(6),
+        ],
+        "C18" => vec![
+            Op::In(0, 0), Op::In(2, 0), Op::In(5, 0), Op::In(13, 0), Op::In(12, 0), Op::In(6, 0), Op::In(6, 1), Op::In(10, 2), Op::In(16, 3), Op::In(7, 0), Op::In(7, 1), Op::In(7, 4), Op::In(11, 0), Op::In(8, 2), Op::In(14, 0), Op::In(17, 0),
+            Op::Coll(1), Op::Coll(0), Op::Cert(5), Op::Cert(7), Op::Cert(25), Op::Cert(27), Op::Wd(0), Op::Wd(1), Op::Wd(3), Op::Vote(2), Op::Vote(3), Op::Vote(4),
+            Op::Mint(0), Op::Mint(2), Op::ReqSigner(3), Op::ReqSigner(0), Op::RefIn(1), Op::RefIn(2), Op::ExtraDatum(0), Op::ExtraDatum(1),
         ],
         "C09" | "C10" => vec![
             Op::In(0, 0), Op::In(7, 0), Op::In(7, 1), Op::In(14, 0), Op::In(14, 2), Op::In(8, 0), Op::In(11, 0),
@@ -1165,8 +1177,11 @@ pub fn depth_for(prop: &str, tier: Tier) -> usize {
         ("C05", false) | ("C06", false) | ("C07", false) | ("C03", false) => 2,
         // thorough: the full alphabet to depth 3 under all methods and configurations, plus the deep pass (depth 4, core alphabet)
         ("C05", true) | ("C06", true) | ("C07", true) | ("C03", true) => 3,
-        ("C18", false) | ("C16", false) => 4,
-        ("C18", true) | ("C16", true) => 5,
+        // C18: the full alphabet to depth 3 (thorough 4) plus the deep pass over a 36-operation core alphabet
+        ("C18", false) => 3,
+        ("C18", true) => 4,
+        ("C16", false) => 4,
+        ("C16", true) => 5,
         // C09 / C10: plus the deep pass (one level deeper over a 22-operation core alphabet)
         (_, false) => 4,
         (_, true) => 5,
@@ -1300,7 +1315,7 @@ pub fn explore_for(prop: &str, tier: Tier, seed: u64, rep: &mut Report) {
     rep.bound("builder_methods", serde_json::json!(methods_for(prop, tier).iter().map(|m| format!("{:?}", m)).collect::<Vec<_>>()));
     rep.bound("builder_configs", serde_json::json!(configs_for(prop, tier).iter().map(|c| config(*c).0).collect::<Vec<_>>()));
     rep.add("builder (BFS over operation histories)", &format!("all histories to depth {} with canonical-state dedup; every (method x config) in every state; RNG <= 1 deviation", depth), st);
-    if matches!(prop, "C05" | "C06" | "C07" | "C03" | "C09" | "C10") {
+    if matches!(prop, "C05" | "C06" | "C07" | "C03" | "C09" | "C10" | "C18") {
         let f = scenario_for(prop, "builder_deep", tier).unwrap();
         let core = core_ops_for(prop);
         let st = bfs("builder_deep", &*f, core.len(), depth + 1, &opts);
